@@ -46,6 +46,7 @@ import (
 	"math/rand"
 	"net"
 	"os"
+	"path/filepath"
 	"runtime"
 	"sort"
 	"strconv"
@@ -867,6 +868,9 @@ func (v *c17Env) oneshot(c int, kind string, k, val int) string {
 	case "scanabort":
 		// not a BatchWrite: a Scan whose client goes away after the first row (below)
 		what = "Scan given up by its client after the first row"
+	case "compactfail":
+		// not a BatchWrite: a forced Compact whose memtable flush fails (below)
+		what = "Compact(force) whose flush fails"
 	default:
 		return "IMPL-ERROR bad oneshot kind " + kind
 	}
@@ -880,6 +884,37 @@ func (v *c17Env) oneshot(c int, kind string, k, val int) string {
 		return fmt.Sprintf("R %d busy", c)
 	}
 	regBefore := v.regIDs()
+	if kind == "compactfail" {
+		// the service's Compact begins (and must end) a transaction of its own whatever the forced
+		// flush does: the table directory is a plain file for the length of the call, so writing the
+		// table fails
+		v.e.Put([]byte("~compactfail"), []byte("x")) // something to flush
+		sst := filepath.Join(v.dir, "sst")
+		bak := sst + ".aside"
+		swapped := os.Rename(sst, bak) == nil && os.WriteFile(sst, nil, 0644) == nil
+		v.stats.oneshots++
+		ctx, cancel := context.WithTimeout(v.ctxFor(c, context.Background()), 5*time.Second)
+		_, cerr := v.cli.Compact(ctx, &pb.CompactRequest{Force: true})
+		cancel()
+		if swapped {
+			os.Remove(sst)
+			os.Rename(bak, sst)
+		}
+		v.out(fmt.Sprintf("NOTE compactfail swapped=%v err=%v", swapped, cerr != nil))
+		v.stats.oneshotRejected++
+		dl := time.Now().Add(5 * time.Second)
+		for time.Now().Before(dl) && v.lockState() != "free" {
+			time.Sleep(5 * time.Millisecond)
+		}
+		v.quiesce()
+		if ls := v.lockState(); ls != "free" {
+			v.fail("the service's Compact (%s; error=%v) left the transaction lock held (lock=%s five seconds after the call returned)", what, cerr != nil, ls)
+			v.abort = true
+		} else if after := v.regIDs(); after != regBefore {
+			v.fail("the service's Compact (%s) changed the registered transactions (%s -> %s)", what, regBefore, after)
+		}
+		return fmt.Sprintf("R %d invalid", c) // as a rejected call: no effect on the programs' keys
+	}
 	if kind == "scanabort" {
 		// the service's Scan begins a read-only transaction of its own and must end it on EVERY way
 		// out, also when sending fails because the client has gone. 200 rows of 600 bytes under keys
